@@ -189,7 +189,7 @@ def run(v, tier, seed):
                      200 if quick else 900, env=MICRO_ENV, max_deaths=(25 if which == "valid" else 12))
 
     nrand = 2 if quick else 6
-    per = 1500 if quick else 60000
+    per = 1500 if quick else 150000
 
     def run_rand(j):
         return drive("rand%d" % j, lambda s: [mut, "rand", str(seed * 16 + j), str(s), str(per), W("rep_rand%d.ndjson" % j), W("cur_rand%d" % j)], W("rep_rand%d.ndjson" % j), W("cur_rand%d" % j), 280 if quick else 1700)
@@ -214,7 +214,7 @@ def run(v, tier, seed):
         rows = vlib.read_ndjson(W("rep_self.ndjson")) if os.path.exists(W("rep_self.ndjson")) else []
         flagged = set()
         for r in rows:
-            if r.get("violations") and r.get("target") == "Message::UnflattenFromBytes": flagged.add(r["case"][:60] + r["violations"][0][:40])
+            if r.get("violations") and r.get("target") in ("Message::UnflattenFromBytes", "Message::TemplatedUnflatten"): flagged.add(r["case"][:60] + r["violations"][0][:40])
         texts = " ".join(x for r in rows for x in r.get("violations", []))
         ok = ("accepted although" in texts) and ("a valid encoding was rejected" in texts) and ("re-flattens to different bytes" in texts or "accepted as a different" in texts)
         return ok, len(flagged), texts[:300]
